@@ -216,6 +216,14 @@ def run_c19(tier, seed):
                 runs.append(dict(id=i, threads=th, tick_ns=1, t0_secs=0, lags=[], capacity=1, delay_point=dp,
                                  delay_us=us, cmds=[dict(c="process", kind="action", target=1, prog=2)]))
     validate_runs(chk, prop, b, runs, "flood chain + failure, delay sweep", wd, "c19_flood4")
+    # 3b. dropped right after a step time-out, while the overrunning (but terminating) handler is still running
+    b = BENCHES["faults"]
+    runs = []
+    for i, th in enumerate((2, 4, 1, 16) if thorough else (2, 4, 1)):
+        for j in range(3 if thorough else 1):
+            runs.append(dict(id=10 * i + j + 1, threads=th, tick_ns=1, t0_secs=0, lags=[], no_settle=True,
+                             cmds=[dict(c="process", kind="event", target="m1", prog=6)]))
+    validate_runs(chk, prop, b, runs, "drop during an abandoned handler", wd, "c19_timeout")
     # 4. random prefixes of random lengths
     n = 800 if thorough else 120
     for bn in ("faults", "cancel", "chrono"):
